@@ -72,8 +72,19 @@ func HarnessRevalidation() {
 	if symChoice(2) == 1 {
 		ch["If-None-Match"] = []string{"\"client\""}
 	}
+	// a client may also name the validators' header fields in its Connection header (as
+	// hop-by-hop): its own copies go, the proxy's stored validators are still sent
 	if symChoice(2) == 1 {
+		ch["Connection"] = []string{"If-None-Match, If-Modified-Since"}
+		vReach("validators-nominated-hop-by-hop")
+	}
+	clientIMS := ""
+	switch symChoice(3) {
+	case 1:
 		ch["If-Modified-Since"] = []string{vTimeString(symTime())}
+	case 2:
+		clientIMS = "Sunday, 01-Jan-34 00:00:00 GMT" // an obsolete but valid date form
+		ch["If-Modified-Since"] = []string{clientIMS}
 	}
 	if symChoice(2) == 1 {
 		ch["If-Match"] = []string{"\"client\""}
@@ -101,6 +112,11 @@ func HarnessRevalidation() {
 		vAssert(perr == nil && got.Equal(lm), "c06.stored-last-modified-not-sent")
 	} else if len(up["If-Modified-Since"]) > 0 {
 		vNote("C06: with no Last-Modified from the origin, the store time is sent as If-Modified-Since (not judged)")
+		// ... but never the client's own date
+		if clientIMS != "" {
+			sentT, perr := http.ParseTime(one(up, "If-Modified-Since"))
+			vAssert(perr != nil || !sentT.Equal(vTimeOf(2019686400*1000000000)), "c06.client-conditional-forwarded") // 2034-01-01T00:00:00Z
+		}
 	}
 	vAssert(len(up["If-Match"]) == 0 && len(up["If-Unmodified-Since"]) == 0, "c06.client-conditional-forwarded")
 	// any further upstream request of this exchange (e.g. the direct fetch after an
@@ -109,7 +125,10 @@ func HarnessRevalidation() {
 	for i := 2; i < len(e.o.seen); i++ {
 		x := e.o.seen[i].header
 		vReach("follow-up-fetch")
-		vAssert(len(x["If-None-Match"]) == 0 && len(x["If-Modified-Since"]) == 0 && len(x["If-Match"]) == 0 && len(x["If-Unmodified-Since"]) == 0,
+		// (a date the client sent in an obsolete form is not among the conditionals the proxy
+		// takes out of the request; on the client's own fetch it is the client's to send)
+		ownIMS := clientIMS != "" && len(x["If-Modified-Since"]) == 1 && x["If-Modified-Since"][0] == clientIMS
+		vAssert(len(x["If-None-Match"]) == 0 && (len(x["If-Modified-Since"]) == 0 || ownIMS) && len(x["If-Match"]) == 0 && len(x["If-Unmodified-Since"]) == 0,
 			"c06.conditional-header-on-the-clients-own-fetch")
 	}
 	m2, _, err2 := e.p.cache.GetMetadata(key)
